@@ -13,7 +13,7 @@ Notation step' := (step requires_met cfg oc).
 (* the part at position i is handed to compile/exec under the state rs' *)
 Record Ready (s : rstate) (p : part) (rs' : runstate) : Prop := mkReady {
   rd_running : r_end s = E_running;
-  rd_update : rs_update requires_met (r_rs s) (p_directives p) = UOk rs';
+  rd_update : part_update requires_met (r_rs s) p = UOk rs';
   rd_enabled : rs_skips rs' || negb (has_any_code p) = false;
   rd_import : negb (r_did_import s) && negb (c_import_ok cfg) = false
 }.
@@ -158,13 +158,13 @@ Proof. intros H O. enter H. rewrite O. apply fail_at_fails. Qed.
 
 (* a directive that cannot be applied is a failure of that part *)
 Lemma step_directive_error s i p e :
-  r_end s = E_running -> rs_update requires_met (r_rs s) (p_directives p) = UErr e ->
+  r_end s = E_running -> part_update requires_met (r_rs s) p = UErr e ->
   fails_with (step' s i p) i F_directive.
 Proof. intros E U. unfold step. rewrite E, U. apply fail_at_fails. Qed.
 
 (* a skipped part has no effect at all: nothing executed, logged, compared or buffered *)
 Lemma step_skipped s i p rs' :
-  r_end s = E_running -> rs_update requires_met (r_rs s) (p_directives p) = UOk rs' ->
+  r_end s = E_running -> part_update requires_met (r_rs s) p = UOk rs' ->
   rs_skips rs' || negb (has_any_code p) = true ->
   let s' := step' s i p in
   r_skipped s' = r_skipped s ++ [i] /\ r_executed s' = r_executed s /\ r_checked s' = r_checked s /\
